@@ -119,6 +119,12 @@ func constEval(info *types.Info, e ast.Expr, env map[types.Object]constant.Value
 					return v, true
 				}
 			}
+			// []rune("...") is kept as the string (a table of runes): consumers index it by rune
+			if sl, ok := tv.Type.Underlying().(*types.Slice); ok && v.Kind() == constant.String {
+				if b, ok := sl.Elem().Underlying().(*types.Basic); ok && b.Kind() == types.Int32 {
+					return v, true
+				}
+			}
 			return nil, false
 		}
 		var args []constant.Value
@@ -196,6 +202,12 @@ func constEval(info *types.Info, e ast.Expr, env map[types.Object]constant.Value
 		case "strconv.Itoa":
 			if n, ok := num(0); ok {
 				return constant.MakeString(strconv.Itoa(int(n))), true
+			}
+		case "slices.Contains":
+			if s, ok1 := str(0); ok1 {
+				if r, ok2 := num(1); ok2 {
+					return constant.MakeBool(strings.ContainsRune(s, rune(r))), true
+				}
 			}
 		case "slices.Index":
 			if s, ok1 := str(0); ok1 {
